@@ -5,6 +5,7 @@
 import Rpki.Model.CertEnc
 import Rpki.Proofs.CertDerLemmas
 import Rpki.Proofs.CrlCodec
+import Rpki.Proofs.IpDerV4
 import Rpki.Props.C17
 namespace Rpki.CertEnc
 open Rpki.Der Rpki.CertDer Rpki.Chain Rpki.Consts
@@ -924,6 +925,15 @@ theorem claimRead128_of_canon (cl : Claim) (h : ClaimCanon IpDer.maxAddr cl) : C
   | missing => trivial
   | inherit => trivial
   | blocks c => exact ⟨IpDer.blocksLoop_encode c _ (IpDer.length_le_encodeBlocks c) h.1, h⟩
+
+/-- every canonical chain of IPv4 blocks (bounds aligned to the low 96 bits of the 128-bit representation) is
+read back by the IPv4 reader, whose length limit is 32 -/
+theorem claimRead32_of_v4 (cl : Claim) (h : ClaimCanon IpDer.maxAddr cl)
+    (hs : ∀ c, cl = .blocks c → ∀ b ∈ c, IpDer.V4Shaped b) : ClaimRead 32 cl := by
+  cases cl with
+  | missing => trivial
+  | inherit => trivial
+  | blocks c => exact ⟨IpDer.blocksLoop32_encode c _ (IpDer.length_le_encodeBlocks c) h.1 (hs c rfl), h⟩
 
 /-- every canonical chain of AS numbers (or `inherit`) is read back -/
 theorem asRead_of_canon (cl : Claim) (h : ClaimCanon AsDer.maxAs cl) (hp : cl ≠ .missing) : AsRead cl := by
